@@ -4,7 +4,10 @@
    must be behaviours of SegFetch, with the recorded projection after every event. *)
 EXTENDS SegFetch, Json, IOUtils, TLCExt
 
-Traces == ndJsonDeserialize(IOEnv.TRACE_FILE)
+\* the parsed trace file is kept in a TLC register: as a plain definition TLC re-evaluates (re-parses) it at every use
+TraceReg == 1000000
+ASSUME TLCSet(TraceReg, ndJsonDeserialize(IOEnv.TRACE_FILE))
+Traces == TLCGet(TraceReg)
 VARIABLES tid, l
 tvars == <<vars, tid, l>>
 
